@@ -220,7 +220,7 @@ func (c *Ctx) fullRangeOff(fn *ssa.Function, h *ssa.BasicBlock, what string, isS
 	}
 	// other exits: failure only
 	for _, e := range ir.LoopExits(h) {
-		if e == lf.exit {
+		if e == lf.exit || ir.NilGuardEdges(fn)[e] {
 			continue
 		}
 		tabled := false
